@@ -13,8 +13,9 @@ C03CtxForms == ReadAll(C03CtxText)
 
 C03G == Grammar(
   <<"1", "\"s\"", ":k", "'sym", "'(1 2)", "'(+ 1 2)", "{:a 1}", "nil", "e", "(raise!)", "(boom!)",
-    "(boom-str!)", "(nth [] 5)", "(trace! :b)", "undefined-symbol", "['x]", "(rawboom!)", "(rawboom-str!)", "(rawraise!)">>,
-  <<"(throw _1)", "(thrower _1)", "(deep 2 _1)", "(mthrow _1)", "(try _1)", "(try _1 (catch e e))",
+    "(boom-str!)", "(nth [] 5)", "(trace! :b)", "undefined-symbol", "['x]", "(rawboom!)", "(rawboom-str!)", "(rawraise!)",
+    "(go-error \"user:g\")", "(panic \"p\")", "(panic (go-error \"user:q\"))">>,
+  <<"(error-string _1)", "(unwrap-error _1)", "(throw _1)", "(thrower _1)", "(deep 2 _1)", "(mthrow _1)", "(try _1)", "(try _1 (catch e e))",
     "(try _1 (catch e :h))", "(try _1 (catch e (throw e)))", "(try _1 (catch e (trace! e)))",
     "(try _1 (finally (trace! :f)))", "(try _1 (finally (trace! e)))",
     "(try _1 (catch e e) (finally (trace! e)))", "(list _1 e)", "(trace! _1)",
